@@ -1268,6 +1268,11 @@ func collectTextNodes(parent *Inline, r *inlineByteReader, end int, textKind Inl
 					}
 					plainStart = r.pos
 				}
+				if r.pos >= end {
+					// The backslash was the last byte of the run:
+					// what the reader stands on now is no longer part of it.
+					continue
+				}
 			case '&':
 				if end := parseCharacterEscape(r.remainingNodeBytes()); end >= 0 {
 					if r.pos > plainStart {
@@ -1302,7 +1307,7 @@ func collectTextNodes(parent *Inline, r *inlineByteReader, end int, textKind Inl
 			break
 		}
 		if r.jumped() {
-			if r.prevPos > plainStart {
+			if r.prevPos >= plainStart {
 				parent.children = append(parent.children, &Inline{
 					kind: textKind,
 					span: Span{
